@@ -44,7 +44,7 @@ def generate(rng, repo_root, config, tier="quick", opts=None):
         nx = int(round(3 * (400 / 3) ** rng.random()))
     max_steps = max(2, min(300, int(opts.get("cell_budget", 24000) / nx)))
     nsteps = max(1, int(round(max_steps ** rng.random())))
-    g = world.draw_grid(rng, n=nsteps + 1, families=("uniform", "quadratic", "geometric", "random", "random", "bigstep"))
+    g = world.draw_grid(rng, n=nsteps + 1, families=("uniform", "quadratic", "geometric", "random", "random", "bigstep", "tiny", "nearly_uniform", "ramp"))
     if rng.random() < 0.1 and len(g["t"]) > 3:
         # a repeated time (zero increment) is a legal non-decreasing grid
         j = rng.randrange(1, len(g["t"]) - 1)
@@ -159,9 +159,10 @@ class OneRun:
 
 
 def _build(ns, scn):
-    fl, _ = world.make_fluid(ns, scn["fluids"][0], ns.repo_root)
+    lib = ns.fresh()
+    fl, _ = world.make_fluid(lib, scn["fluids"][0], ns.repo_root)
     o = scn["object"]
-    cls = getattr(ns, o["cls"])
+    cls = getattr(lib, o["cls"])
     return cls(int(o["nx"]), float(o["pf"]), float(o["pi"]), fl if o.get("fluid") is not None else None)
 
 
